@@ -7,6 +7,11 @@ import (
 	"strings"
 	"testing"
 
+	"google.golang.org/protobuf/proto"
+	"google.golang.org/protobuf/reflect/protoreflect"
+	"google.golang.org/protobuf/reflect/protoregistry"
+	"google.golang.org/protobuf/types/descriptorpb"
+
 	"github.com/bufbuild/protocompile/internal/verifmon/vlib"
 	"github.com/bufbuild/protocompile/linker"
 )
@@ -172,6 +177,10 @@ func TestC27(t *testing.T) {
 		"unknown fields are compared after ordering records by field number",
 	})
 
+	if why := c27SelfTest(); why != "" {
+		r.Inconclusive("descriptor comparison self-test failed: " + why)
+		return
+	}
 	roots, err := corpusRoots()
 	if err != nil {
 		r.Inconclusive("corpus not readable: " + err.Error())
@@ -225,4 +234,98 @@ func sortedStrings(xs []string) []string {
 	out := append([]string(nil), xs...)
 	sort.Strings(out)
 	return out
+}
+
+// c27SelfTest checks, on one fixed workspace with custom options, that the
+// normalise+diff machinery (a) is silent on the stable descriptor against
+// its own wire form with all extensions left as unknown bytes, and (b) sees
+// a one-bit change inside such an unknown extension value, a renamed
+// message and a dropped field.
+func c27SelfTest() string {
+	w := &workspace{Files: map[string]string{
+		"o.proto": "syntax = \"proto2\";\npackage st;\nimport \"google/protobuf/descriptor.proto\";\nmessage O { optional int32 a = 1; repeated string s = 2; }\nextend google.protobuf.MessageOptions { optional O mo = 50001; optional int32 mi = 50002; }\n",
+		"u.proto": "syntax = \"proto2\";\npackage st;\nimport \"o.proto\";\nmessage U { option (mo) = { a: 7 s: \"x\" s: \"y\" }; option (mi) = 3; optional int32 f = 1; optional string g = 2; }\n",
+	}, Targets: []string{"u.proto"}}
+	st := stableCompile(context.Background(), w, 1)
+	if st.Err != nil {
+		return "fixed workspace rejected: " + st.Err.Error()
+	}
+	res, ok := st.Files[0].(linker.Result)
+	if !ok {
+		return "no linker.Result"
+	}
+	resolver := linker.ResolverFromFile(st.Files[0])
+	want, err := normalizeFDP(res.FileDescriptorProto(), resolver)
+	if err != nil {
+		return err.Error()
+	}
+	// wire form decoded WITHOUT any resolver: extensions become unknown fields
+	raw, err := proto.MarshalOptions{Deterministic: true}.Marshal(res.FileDescriptorProto())
+	if err != nil {
+		return err.Error()
+	}
+	unk := new(descriptorpb.FileDescriptorProto)
+	if err := (proto.UnmarshalOptions{Resolver: emptyTypes{}}).Unmarshal(raw, unk); err != nil {
+		return err.Error()
+	}
+	if len(unk.GetMessageType()[0].GetOptions().ProtoReflect().GetUnknown()) == 0 {
+		return "extensions were not left unknown"
+	}
+	got, err := normalizeFDP(unk, resolver)
+	if err != nil {
+		return err.Error()
+	}
+	if ds := diffFDP(want, got, resolver); len(ds) != 0 {
+		return fmt.Sprintf("known-vs-unknown storage is reported as a difference: %+v", ds[0])
+	}
+	// (b1) flip the value 7 -> 6 inside the unknown bytes
+	mut := proto.Clone(unk).(*descriptorpb.FileDescriptorProto)
+	ub := append([]byte(nil), mut.GetMessageType()[0].GetOptions().ProtoReflect().GetUnknown()...)
+	flipped := false
+	for i := 0; i+1 < len(ub); i++ {
+		if ub[i] == 0x08 && ub[i+1] == 0x07 { // field 1 varint 7 inside O
+			ub[i+1] = 0x06
+			flipped = true
+			break
+		}
+	}
+	if !flipped {
+		return "could not locate the option value in the unknown bytes"
+	}
+	mut.GetMessageType()[0].GetOptions().ProtoReflect().SetUnknown(ub)
+	g2, err := normalizeFDP(mut, resolver)
+	if err != nil {
+		return err.Error()
+	}
+	if ds := diffFDP(want, g2, resolver); len(ds) != 1 || !strings.Contains(ds[0].Class, "MessageOptions.(ext).<custom-field> value") {
+		return fmt.Sprintf("a changed option value is not reported as exactly one custom-field difference: %+v", ds)
+	}
+	// (b2) renamed message, dropped field
+	mut = proto.Clone(unk).(*descriptorpb.FileDescriptorProto)
+	mut.GetMessageType()[0].Name = proto.String("V")
+	mut.GetMessageType()[0].Field = mut.GetMessageType()[0].Field[:1]
+	g3, err := normalizeFDP(mut, resolver)
+	if err != nil {
+		return err.Error()
+	}
+	if ds := diffFDP(want, g3, resolver); len(ds) != 2 {
+		return fmt.Sprintf("rename + dropped field give %d differences, want 2", len(ds))
+	}
+	return ""
+}
+
+// emptyTypes resolves nothing: every extension stays in the unknown fields.
+type emptyTypes struct{}
+
+func (emptyTypes) FindMessageByName(protoreflect.FullName) (protoreflect.MessageType, error) {
+	return nil, protoregistry.NotFound
+}
+func (emptyTypes) FindMessageByURL(string) (protoreflect.MessageType, error) {
+	return nil, protoregistry.NotFound
+}
+func (emptyTypes) FindExtensionByName(protoreflect.FullName) (protoreflect.ExtensionType, error) {
+	return nil, protoregistry.NotFound
+}
+func (emptyTypes) FindExtensionByNumber(protoreflect.FullName, protoreflect.FieldNumber) (protoreflect.ExtensionType, error) {
+	return nil, protoregistry.NotFound
 }
